@@ -4,10 +4,10 @@ Slots2 == <<"a", "b">>
 Slots3 == <<"a", "b", "c">>
 KBoth  == {"composite", "decorator"}
 KComp  == {"composite"}
-MAll   == {"-", "OnDelete", "Recreate", "InPlace"}
+MAll   == {"-", "OnDelete", "Recreate", "InPlace", "SSA"}
 MTwo   == {"Recreate", "InPlace"}
 PAll   == {"none", "first", "all", "ordinal"}
-PBad   == {"none", "first", "all", "ordinal", "badlabel"}
+PBad   == {"none", "first", "all", "ordinal", "badlabel", "echo", "echoraw", "ownedref"}
 PTwo   == {"first", "ordinal"}
 ScAll  == {"NsNs", "ClNs", "ClCl", "NsCm"}
 ScOne  == {"NsNs"}
